@@ -444,15 +444,17 @@ func (g *gen) commandStep() (omap, umap) {
 		want["matrix"] = []any{fmtScalar(a), fmtScalar(b)}
 	case 1:
 		in = append(in, kv{"matrix", omap{{"setup", omap{{"os", []any{"linux", 11}}, {"arch", []any{"amd64", true}}}},
-			{"adjustments", []any{omap{{"with", omap{{"os", "win"}, {"arch", 386}}}, {"skip", true}, {"soft_fail", true}}}}}})
+			{"adjustments", []any{omap{{"with", omap{{"os", "win"}, {"arch", 386}}}, {"skip", true}, {"soft_fail", true}},
+				omap{{"with", omap{{"os", true}, {"arch", "x"}}}}}}}})
 		want["matrix"] = umap{"setup": umap{"os": []any{"linux", "11"}, "arch": []any{"amd64", "true"}},
-			"adjustments": []any{umap{"with": umap{"os": "win", "arch": "386"}, "skip": true, "soft_fail": true}}}
+			"adjustments": []any{umap{"with": umap{"os": "win", "arch": "386"}, "skip": true, "soft_fail": true},
+				umap{"with": umap{"os": "true", "arch": "x"}}}}
 	case 2:
-		in = append(in, kv{"matrix", omap{{"setup", []any{"a", 2}}, {"adjustments", []any{omap{{"with", "c"}, {"skip", "reason"}}}}}})
-		want["matrix"] = umap{"setup": []any{"a", "2"}, "adjustments": []any{umap{"with": "c", "skip": "reason"}}}
+		in = append(in, kv{"matrix", omap{{"setup", []any{"a", 2}}, {"adjustments", []any{omap{{"with", "c"}, {"skip", "reason"}}, omap{{"with", true}}, omap{{"with", 3}, {"soft_fail", false}}}}}})
+		want["matrix"] = umap{"setup": []any{"a", "2"}, "adjustments": []any{umap{"with": "c", "skip": "reason"}, umap{"with": "true"}, umap{"with": "3", "soft_fail": false}}}
 	}
 	// cache
-	switch r.Intn(7) {
+	switch r.Intn(8) {
 	case 0:
 		in = append(in, kv{"cache", "path/a"})
 		want["cache"] = umap{"paths": []any{"path/a"}}
@@ -465,6 +467,10 @@ func (g *gen) commandStep() (omap, umap) {
 	case 3:
 		in = append(in, kv{"cache", false})
 		want["cache"] = false
+	case 4:
+		// `cache: true` is an enabled cache without settings
+		in = append(in, kv{"cache", true})
+		want["cache"] = umap{}
 	}
 	g.extras(&in, want, taken)
 	g.r.Shuffle(len(in), func(i, j int) { in[i], in[j] = in[j], in[i] })
